@@ -13,6 +13,7 @@ import DltVerif.Lemmas.FibexOrder
 import DltVerif.Lemmas.FibexKeyed
 import DltVerif.Lemmas.FibexVocab
 import DltVerif.Lemmas.FibexStrip
+import DltVerif.Lemmas.FibexAttrs
 
 namespace Dlt
 open Dlt.Fibex Dlt.Fibex.Spec
@@ -57,43 +58,47 @@ theorem C11_load_gapped (files : List (List (List XmlEv × Elem) × List XmlEv))
   rw [build_accOf]
   cases Spec.model (files.map fun f => f.1.map (·.2)) <;> rfl
 
-/-- loading sees only the significant events of each file -/
-theorem gatherFibexData_significant (files : List (List XmlEv)) :
-    gatherFibexData ((files.map significant).map some) = gatherFibexData (files.map some) := by
+/-- loading cannot see a transformation that `read_event` cannot see -/
+theorem gatherFibexData_invisible {T : List XmlEv → List XmlEv} (hT : Invisible T)
+    (files : List (List XmlEv)) :
+    gatherFibexData ((files.map T).map some) = gatherFibexData (files.map some) := by
   unfold gatherFibexData
-  have e : ((files.map significant).map some).isEmpty = (files.map some).isEmpty := by
+  have e : ((files.map T).map some).isEmpty = (files.map some).isEmpty := by
     cases files <;> rfl
   rw [e]
   split
   · rfl
   · unfold readFibexes
     rw [List.map_map]
-    have := readFiles_significant files {}
+    have := readFiles_invisible hT files {}
     simp only [Function.comp_def]
     rw [this]
 
-/-- ANY layout: a loader cannot tell a file from its significant events (`Spec.significant`:
-    the file without comments, processing instructions, CDATA, white space and other text
-    outside the text elements, and unknown elements - wherever they stand, also between the
-    children of a PDU, a FRAME or an instance).  So every set of files that have the
-    significant events of the rendering of well-formed documents - pretty-printed, commented,
-    with vendor elements anywhere - loads to the model of those documents. -/
+theorem seen_invisible : Invisible seen :=
+  Invisible.comp significant_invisible plainAttrs_invisible
+
+/-- ANY layout: every set of files of which a loader sees what it sees of the rendering of
+    well-formed documents - pretty-printed, commented, with vendor elements and foreign
+    attributes anywhere - loads to the model of those documents. -/
 theorem C11_load_any_layout (files : List (List XmlEv)) (docs : List FileDoc) (hne : docs ≠ [])
     (hw : ∀ d ∈ docs, d.all Elem.wf = true)
-    (hs : files.map significant = (docs.map render).map significant) :
+    (hs : files.map seen = (docs.map render).map seen) :
     gatherFibexData (files.map some) = .ok (Spec.model docs) := by
-  rw [← gatherFibexData_significant files, hs, gatherFibexData_significant, List.map_map]
+  rw [← gatherFibexData_invisible seen_invisible files, hs,
+    gatherFibexData_invisible seen_invisible, List.map_map]
   exact C11_load docs hne hw
 
--- non-vacuity: a pretty-printed file with a comment and a vendor element between the children
--- of a SIGNAL has the significant events of the compact rendering
-example : significant
+-- non-vacuity: a pretty-printed file with a comment, a vendor element between the children of a
+-- SIGNAL and an `OID` attribute in front of its `ID` shows the loader what the compact rendering
+-- shows it
+example : seen
     [.other, .start .other [], .text (some [0x0A#8]), .start .other [], .text (some [0x0A#8]),
-     .start .SIGNAL (idAttr [0x53#8]), .text (some [0x0A#8, 0x20#8]), .other,
+     .start .SIGNAL (.ok [0x4F#8, 0x49#8, 0x44#8] (some [0x6F#8]) :: idAttr [0x53#8]),
+     .text (some [0x0A#8, 0x20#8]), .other,
      .start .SHORT_NAME [], .text (some [0x53#8]), .end_ .SHORT_NAME, .text (some [0x0A#8]),
      .empty .other [], .empty .CODING_REF (idRefAttr [0x43#8]), .text (some [0x0A#8]),
      .end_ .SIGNAL, .text (some [0x0A#8]), .end_ .other, .end_ .other]
-    = significant (render [Elem.signal [0x53#8] [0x43#8]]) := by decide
+    = seen (render [Elem.signal [0x53#8] [0x43#8]]) := by decide
 
 -- non-vacuity: a comment, white space and an unknown empty element in front of a SIGNAL, white
 -- space before the end
